@@ -52,7 +52,7 @@ func plainActions(t fataler) []string {
 
 var c14ArgActions = []string{"put(x)", "put(é)", "put( )", "change-query(ab)", "change-query()", "pos(3)", "pos(-1)", "pos(0)", "change-prompt(>> )", "change-prompt()", "change-header(H1\nH2)", "change-header()",
 	"change-preview-window(up,30%)", "change-preview-window(up,70%)", "change-preview-window(down,20%)", "change-preview-window(down,80%)", "change-preview-window(right,50%,border-none)", "change-preview-window(right,50%,border-top)", "change-preview-window(hidden)", "change-preview-window(right,50%,wrap)", "change-preview-window(bottom,1)", "change-preview-window(left,90%,border-none)",
-	"change-preview(echo other {})", "preview(echo tmp {})", "execute-silent(true)", "execute-silent(sleep 0.05)", "reload(seq 7)", "reload(printf 'a\\nb')", "reload-sync(seq 3)", "reload(true)",
+	"change-preview(echo other {})", "preview(echo tmp {})", "execute-silent(cat {f})", "execute-silent(cat {+f} > /dev/null)", "execute(true {f} {+f})", "transform-header(cat {f})", "change-query(zzzz-nothing-matches)", "execute-silent(true)", "execute-silent(sleep 0.05)", "reload(seq 7)", "reload(printf 'a\\nb')", "reload-sync(seq 3)", "reload(true)",
 	"change-multi(2)", "change-multi(0)", "change-multi", "change-nth(1)", "change-nth(..)", "change-pointer(>>)", "change-pointer()", "change-ghost(type)", "change-border-label( L )", "change-list-label(ll)",
 	"change-input-label(il)", "change-header-label(hl)", "change-preview-label(pl)", "transform-query(echo q)", "transform(echo up+down)", "transform-prompt(echo P)", "transform-header(echo TH)",
 	"search(b)", "print(x)", "unbind(ctrl-a)", "rebind(ctrl-a)", "toggle-bind(ctrl-a)", "transform-search(echo a)", "transform-nth(echo 1)", "transform-pointer(echo p)", "transform-ghost(echo g)"}
